@@ -219,7 +219,7 @@ func runStScenario(sc StScenario) string {
 			r0 := scripted[0]
 			f := func() {
 				r0.emit(sb.Hook)
-				for i := 0; i < 1500; i++ {
+				for i := 0; i < 200; i++ { // at most 40 ms: the monitor is subscribed and takes the change at once
 					if sv.GetStateMap()["r0"] == sb.Hook {
 						break
 					}
@@ -504,7 +504,8 @@ func genStScenario(r interface{ IntN(int) int }) StScenario {
 			}
 			sb.LeaveMs = a + 1 + r.IntN(20)
 		}
-		if sb.ArriveMs >= 2 && r.IntN(3) == 0 {
+		// only with a monitor that subscribes at once: the hook waits for the supervisor's map to show the state
+		if sb.ArriveMs >= 2 && r.IntN(3) == 0 && len(sc.Runs) > 0 && sc.Runs[0].SubDelayMs == 0 {
 			sb.Hook = pick(r, []string{"Reloading", "Running", "Degraded"})
 		}
 		sc.Subs = append(sc.Subs, sb)
